@@ -2,7 +2,7 @@
 # Offline setup: build the orchestrator and pre-build the instrumented harness
 # for the current /repo tree.
 set -e
-cd /verif
+cd "${VERIF_DIR:-/verif}"
 export GOFLAGS=-mod=mod GOPROXY=off GOSUMDB=off GOTOOLCHAIN=local
 export PATH=/opt/veriftools/go1.26.8/bin:$PATH
 mkdir -p bin evidence replays
